@@ -91,8 +91,10 @@ def path_case(draw, n=(2, 4), raman=False, max_ch=40, multiband=False):
     comb = draw(spectra.comb(1, max_ch, f_start=(lo, int(si['f_max'] / 1e6) - 400000), power=(-6.0, 6.0),
                              f_stop=int(si['f_max'] / 1e6) + draw(st.sampled_from([0, 0, 100000]))))
     nli = draw(st.sampled_from(['gn_model_analytic'] * 4 + ['ggn_approx']))
+    # a RamanFiber can only be propagated with the Raman solver enabled (documented: needs --sim-params with flag true;
+    # with the flag off RamanFiber.propagate indexes pump rows that the attenuation-only profile does not have)
     return {'eq': eq, 'topo': topo, 'truth': truth, 'src': src, 'dst': dst, 'comb': comb,
-            'sim': {'raman_params': {'flag': bool(raman and draw(st.booleans())), 'result_spatial_resolution': 10e3,
+            'sim': {'raman_params': {'flag': bool(raman), 'result_spatial_resolution': 10e3,
                                      'solver_spatial_resolution': 10e3},
                     'nli_params': {'method': nli, 'dispersion_tolerance': 1, 'phase_shift_tolerance': 0.1,
                                    'computed_channels': None}}}
